@@ -376,6 +376,16 @@ pub assume_specification<T: PartialEq, A: std::alloc::Allocator>[ Vec::<T, A>::d
 pub assume_specification[ str::eq_ignore_ascii_case ](a: &str, b: &str) -> (r: bool)
     ensures a@ == b@ ==> r;
 
+/// A2: `str::strip_prefix` (any pattern) returns a suffix of the string or None (partial: which
+/// suffix is not specified).  Not used by the code under contract today; stated so that a change
+/// that starts to strip a prefix from a name is *decided*.
+#[verifier::external_trait_specification]
+pub trait ExPattern: Sized {
+    type ExternalTraitSpecificationFor: core::str::pattern::Pattern;
+}
+pub assume_specification<'a, P: core::str::pattern::Pattern>[ str::strip_prefix::<P> ](s: &'a str, p: P) -> (r: Option<&'a str>)
+    ensures r matches Some(x) ==> x@.len() <= s@.len();
+
 /// A2: `str::parse` never panics; its value is an uninterpreted function of the text
 pub uninterp spec fn parse_spec<F>(s: Seq<char>) -> Option<F>;
 /// R20: the interval arm of set_atom_name is `new_name.parse().transform(|v| *interval = v, |_| err)`
